@@ -41,45 +41,45 @@ import (
 
 func init() {
 	register("extract", extractDomain)
-	registerOp("decnas", func(a []string) string { need(a, 2); return fmtIP(stgutg.DecodePDUSessionNASPDU(withSlack(aHex(a[0]), aHex(a[1])))) })
+	registerOp("decnas", func(a []string) string { exNeed(a, 2); return exFmtIP(stgutg.DecodePDUSessionNASPDU(exWithSlack(aHex(a[0]), aHex(a[1])))) })
 	registerOp("decxfer", func(a []string) string {
-		need(a, 2)
-		t, ip := stgutg.DecodePDUSessionResourceSetupRequestTransfer(withSlack(aHex(a[0]), aHex(a[1])))
-		return fmtTeidIP(t, ip)
+		exNeed(a, 2)
+		t, ip := stgutg.DecodePDUSessionResourceSetupRequestTransfer(exWithSlack(aHex(a[0]), aHex(a[1])))
+		return exFmtTeidIP(t, ip)
 	})
-	registerOp("encacc", func(a []string) string { need(a, 23); return "ok " + hx(buildAccept(a)) })
+	registerOp("encacc", func(a []string) string { exNeed(a, 23); return "ok " + hx(buildAccept(a)) })
 	registerOp("acc", func(a []string) string {
-		need(a, 24)
-		return fmtIP(stgutg.DecodePDUSessionNASPDU(withSlack(buildAccept(a[:23]), aHex(a[23]))))
+		exNeed(a, 24)
+		return exFmtIP(stgutg.DecodePDUSessionNASPDU(exWithSlack(buildAccept(a[:23]), aHex(a[23]))))
 	})
-	registerOp("encxfer", func(a []string) string { need(a, 5); return "ok " + hx(buildTransfer(a)) })
+	registerOp("encxfer", func(a []string) string { exNeed(a, 5); return "ok " + hx(buildTransfer(a)) })
 	registerOp("xfer", func(a []string) string {
-		need(a, 6)
-		t, ip := stgutg.DecodePDUSessionResourceSetupRequestTransfer(withSlack(buildTransfer(a[:5]), aHex(a[5])))
-		return fmtTeidIP(t, ip)
+		exNeed(a, 6)
+		t, ip := stgutg.DecodePDUSessionResourceSetupRequestTransfer(exWithSlack(buildTransfer(a[:5]), aHex(a[5])))
+		return exFmtTeidIP(t, ip)
 	})
 	registerOp("establish", opEstablish)
 }
 
-func need(a []string, n int) {
+func exNeed(a []string, n int) {
 	if len(a) != n {
 		panic(badArg{})
 	}
 }
 
 // withSlack returns a slice of length len(b) and capacity len(b)+len(slack) whose hidden tail is slack.
-func withSlack(b, slack []byte) []byte {
+func exWithSlack(b, slack []byte) []byte {
 	backing := make([]byte, len(b)+len(slack))
 	copy(backing, b)
 	copy(backing[len(b):], slack)
 	return backing[:len(b):len(backing)]
 }
 
-func fmtIP(ip net.IP) string { return "ok " + hx(ip) }
+func exFmtIP(ip net.IP) string { return "ok " + hx(ip) }
 
-func fmtTeidIP(t uint32, ip net.IP) string { return "ok " + u(uint64(t)) + " " + hx(ip) }
+func exFmtTeidIP(t uint32, ip net.IP) string { return "ok " + u(uint64(t)) + " " + hx(ip) }
 
-func optU8(s string) *uint8 {
+func exOptU8(s string) *uint8 {
 	if s == "x" {
 		return nil
 	}
@@ -91,14 +91,14 @@ func optU8(s string) *uint8 {
 	return &b
 }
 
-func optHex(s string) []byte {
+func exOptHex(s string) []byte {
 	if s == "x" {
 		return nil
 	}
 	return aHex(s)
 }
 
-func aU8(s string) uint8 {
+func exU8(s string) uint8 {
 	v := aU64(s)
 	if v > 255 {
 		panic(badArg{})
@@ -114,10 +114,10 @@ func buildAccept(a []string) []byte {
 	acc := nasMessage.NewPDUSessionEstablishmentAccept(0)
 	m.GsmMessage.PDUSessionEstablishmentAccept = acc
 	acc.ExtendedProtocolDiscriminator.SetExtendedProtocolDiscriminator(nasMessage.Epd5GSSessionManagementMessage)
-	acc.PDUSessionID.SetPDUSessionID(aU8(a[0]))
-	acc.PTI.SetPTI(aU8(a[1]))
+	acc.PDUSessionID.SetPDUSessionID(exU8(a[0]))
+	acc.PTI.SetPTI(exU8(a[1]))
 	acc.PDUSESSIONESTABLISHMENTACCEPTMessageIdentity.SetMessageType(nas.MsgTypePDUSessionEstablishmentAccept)
-	acc.SelectedSSCModeAndSelectedPDUSessionType.Octet = aU8(a[2])
+	acc.SelectedSSCModeAndSelectedPDUSessionType.Octet = exU8(a[2])
 	qos := aHex(a[3])
 	if len(qos) > 65535 {
 		panic(badArg{})
@@ -130,11 +130,11 @@ func buildAccept(a []string) []byte {
 	}
 	acc.SessionAMBR.SetLen(6)
 	copy(acc.SessionAMBR.Octet[:], ambr)
-	if v := optU8(a[5]); v != nil {
+	if v := exOptU8(a[5]); v != nil {
 		acc.Cause5GSM = nasType.NewCause5GSM(nasMessage.PDUSessionEstablishmentAcceptCause5GSMType)
 		acc.Cause5GSM.SetCauseValue(*v)
 	}
-	if v := optHex(a[6]); v != nil {
+	if v := exOptHex(a[6]); v != nil {
 		if len(v) > 13 {
 			panic(badArg{})
 		}
@@ -142,11 +142,11 @@ func buildAccept(a []string) []byte {
 		acc.PDUAddress.SetLen(uint8(len(v)))
 		copy(acc.PDUAddress.Octet[:], v)
 	}
-	if v := optU8(a[7]); v != nil {
+	if v := exOptU8(a[7]); v != nil {
 		acc.RQTimerValue = nasType.NewRQTimerValue(nasMessage.PDUSessionEstablishmentAcceptRQTimerValueType)
 		acc.RQTimerValue.Octet = *v
 	}
-	if v := optHex(a[8]); v != nil {
+	if v := exOptHex(a[8]); v != nil {
 		if len(v) > 8 {
 			panic(badArg{})
 		}
@@ -154,34 +154,34 @@ func buildAccept(a []string) []byte {
 		acc.SNSSAI.SetLen(uint8(len(v)))
 		copy(acc.SNSSAI.Octet[:], v)
 	}
-	if v := optU8(a[9]); v != nil {
+	if v := exOptU8(a[9]); v != nil {
 		if *v > 1 {
 			panic(badArg{})
 		}
 		acc.AlwaysonPDUSessionIndication = nasType.NewAlwaysonPDUSessionIndication(nasMessage.PDUSessionEstablishmentAcceptAlwaysonPDUSessionIndicationType)
 		acc.AlwaysonPDUSessionIndication.SetAPSI(*v)
 	}
-	if v := optHex(a[10]); v != nil {
+	if v := exOptHex(a[10]); v != nil {
 		acc.MappedEPSBearerContexts = nasType.NewMappedEPSBearerContexts(nasMessage.PDUSessionEstablishmentAcceptMappedEPSBearerContextsType)
-		acc.MappedEPSBearerContexts.SetLen(len16(v))
+		acc.MappedEPSBearerContexts.SetLen(exLen16(v))
 		copy(acc.MappedEPSBearerContexts.Buffer, v)
 	}
-	if v := optHex(a[11]); v != nil {
+	if v := exOptHex(a[11]); v != nil {
 		acc.EAPMessage = nasType.NewEAPMessage(nasMessage.PDUSessionEstablishmentAcceptEAPMessageType)
-		acc.EAPMessage.SetLen(len16(v))
+		acc.EAPMessage.SetLen(exLen16(v))
 		copy(acc.EAPMessage.Buffer, v)
 	}
-	if v := optHex(a[12]); v != nil {
+	if v := exOptHex(a[12]); v != nil {
 		acc.AuthorizedQosFlowDescriptions = nasType.NewAuthorizedQosFlowDescriptions(nasMessage.PDUSessionEstablishmentAcceptAuthorizedQosFlowDescriptionsType)
-		acc.AuthorizedQosFlowDescriptions.SetLen(len16(v))
+		acc.AuthorizedQosFlowDescriptions.SetLen(exLen16(v))
 		copy(acc.AuthorizedQosFlowDescriptions.Buffer, v)
 	}
-	if v := optHex(a[13]); v != nil {
+	if v := exOptHex(a[13]); v != nil {
 		acc.ExtendedProtocolConfigurationOptions = nasType.NewExtendedProtocolConfigurationOptions(nasMessage.PDUSessionEstablishmentAcceptExtendedProtocolConfigurationOptionsType)
-		acc.ExtendedProtocolConfigurationOptions.SetLen(len16(v))
+		acc.ExtendedProtocolConfigurationOptions.SetLen(exLen16(v))
 		copy(acc.ExtendedProtocolConfigurationOptions.Buffer, v)
 	}
-	if v := optHex(a[14]); v != nil {
+	if v := exOptHex(a[14]); v != nil {
 		if len(v) > 255 {
 			panic(badArg{})
 		}
@@ -205,14 +205,14 @@ func buildAccept(a []string) []byte {
 	dl.ExtendedProtocolDiscriminator.SetExtendedProtocolDiscriminator(nasMessage.Epd5GSMobilityManagementMessage)
 	dl.SpareHalfOctetAndSecurityHeaderType.SetSecurityHeaderType(nas.SecurityHeaderTypePlainNas)
 	dl.DLNASTRANSPORTMessageIdentity.SetMessageType(nas.MsgTypeDLNASTransport)
-	dl.SpareHalfOctetAndPayloadContainerType.SetPayloadContainerType(aU8(a[18]))
+	dl.SpareHalfOctetAndPayloadContainerType.SetPayloadContainerType(exU8(a[18]))
 	dl.PayloadContainer.SetLen(uint16(len(inner)))
 	dl.PayloadContainer.SetPayloadContainerContents(inner)
-	if v := optU8(a[19]); v != nil {
+	if v := exOptU8(a[19]); v != nil {
 		dl.PduSessionID2Value = nasType.NewPduSessionID2Value(nasMessage.DLNASTransportPduSessionID2ValueType)
 		dl.PduSessionID2Value.SetPduSessionID2Value(*v)
 	}
-	if v := optHex(a[20]); v != nil {
+	if v := exOptHex(a[20]); v != nil {
 		if len(v) > 255 {
 			panic(badArg{})
 		}
@@ -220,11 +220,11 @@ func buildAccept(a []string) []byte {
 		dl.AdditionalInformation.SetLen(uint8(len(v)))
 		copy(dl.AdditionalInformation.Buffer, v)
 	}
-	if v := optU8(a[21]); v != nil {
+	if v := exOptU8(a[21]); v != nil {
 		dl.Cause5GMM = nasType.NewCause5GMM(nasMessage.DLNASTransportCause5GMMType)
 		dl.Cause5GMM.SetCauseValue(*v)
 	}
-	if v := optU8(a[22]); v != nil {
+	if v := exOptU8(a[22]); v != nil {
 		dl.BackoffTimerValue = nasType.NewBackoffTimerValue(nasMessage.DLNASTransportBackoffTimerValueType)
 		dl.BackoffTimerValue.SetLen(1)
 		dl.BackoffTimerValue.Octet = *v
@@ -239,23 +239,23 @@ func buildAccept(a []string) []byte {
 	}
 	// the security protected 5GS NAS message header (TS 24.501 9.1.1): EPD, SHT, MAC, SQN — what the AMF's NAS
 	// security layer puts in front; with 5G-EA0 the plain message follows unchanged.
-	out := []byte{nasMessage.Epd5GSMobilityManagementMessage, aU8(a[15])}
+	out := []byte{nasMessage.Epd5GSMobilityManagementMessage, exU8(a[15])}
 	out = append(out, mac...)
-	out = append(out, aU8(a[17]))
+	out = append(out, exU8(a[17]))
 	return append(out, plain...)
 }
 
-func len16(b []byte) uint16 {
+func exLen16(b []byte) uint16 {
 	if len(b) > 65535 {
 		panic(badArg{})
 	}
 	return uint16(len(b))
 }
 
-type qosFlow struct{ qfi, fiveQI, arp, capab, vul int64 }
+type exQosFlow struct{ qfi, fiveQI, arp, capab, vul int64 }
 
-func parseQos(s string) []qosFlow {
-	var out []qosFlow
+func exParseQos(s string) []exQosFlow {
+	var out []exQosFlow
 	for _, it := range strings.Split(s, "+") {
 		f := strings.Split(it, ".")
 		if len(f) != 5 {
@@ -269,7 +269,7 @@ func parseQos(s string) []qosFlow {
 			}
 			v[i] = n
 		}
-		out = append(out, qosFlow{v[0], v[1], v[2], v[3], v[4]})
+		out = append(out, exQosFlow{v[0], v[1], v[2], v[3], v[4]})
 	}
 	return out
 }
@@ -324,7 +324,7 @@ func buildTransfer(a []string) []byte {
 		ie.Criticality.Value = ngapType.CriticalityPresentReject
 		ie.Value.Present = ngapType.PDUSessionResourceSetupRequestTransferIEsPresentQosFlowSetupRequestList
 		l := &ngapType.QosFlowSetupRequestList{}
-		for _, q := range parseQos(a[4]) {
+		for _, q := range exParseQos(a[4]) {
 			it := ngapType.QosFlowSetupRequestItem{}
 			it.QosFlowIdentifier.Value = q.qfi
 			it.QosFlowLevelQosParameters.QosCharacteristics.Present = ngapType.QosCharacteristicsPresentNonDynamic5QI
@@ -413,7 +413,7 @@ func buildSetupRequest(rpp, nasPdu string, itemNas, transfer []byte) []byte {
 // SCTPConn wrapper only reads and writes the descriptor). The peer reads the UL NAS TRANSPORT, answers with the
 // setup request and reads the setup response.
 func opEstablish(a []string) string {
-	need(a, 4)
+	exNeed(a, 4)
 	req := buildSetupRequest(a[0], a[1], aHex(a[2]), aHex(a[3]))
 	if len(req) > 2048 {
 		panic(badArg{}) // EstablishPDU reads into a 2048 octet buffer
